@@ -896,6 +896,34 @@ class SymC(object):
     def reciprocal(self):
         return SymC(_one(), _zero()) / self
 
+    def _cfn(self, name):
+        ctx = _HOOKS['ctx']
+        if ctx is not None:
+            v = ctx.atomdefs_c.get((name, self.re.id, self.im.id))
+            if v is not None:
+                return v
+        return None
+
+    def sqrt(self):
+        v = self._cfn('sqrt')
+        if v is None:
+            raise SymError('sqrt of a symbolic complex number without a parametrisation')
+        return v
+
+    def log(self):
+        v = self._cfn('log')
+        if v is not None:
+            return v
+        if self.is_real():
+            return SymC(self.re.log(), _zero())
+        return SymC(app('clog_re', (self.re, self.im)), app('clog_im', (self.re, self.im)))
+
+    def expm1(self):
+        return self.exp() - 1
+
+    def log1p(self):
+        return (self + 1).log()
+
 
 numbers.Complex.register(SymC)
 
